@@ -43,7 +43,8 @@ def gen_case(seed, cfg, index=0):
     fakes = []
     tag = rng.tag(seed)
     for k in range(nfake):
-        fakes.append({"mod": f"fw_{tag}_{k}", "backends": [{"name": f"fw{k}" if j == 0 else f"fw{k}.x{j}", "prio": r.choice([-5, 0, 0, 1, 3]), "healthy": r.random() < 0.8}
+        fakes.append({"mod": f"fw_{tag}_{k}", "backends": [{"name": f"fw{k}" if j == 0 else f"fw{k}.x{j}", "prio": r.choice([-5, 0, 0, 1, 3]), "healthy": r.random() < 0.8,
+                                                           "reentrant": r.random() < 0.5}  # the factory itself makes an einx call (runs under the registry lock)
                                                           for j in range(r.randint(1, 2))]})
     threads = []
     used_calls = set()
@@ -181,6 +182,8 @@ class World:
         cls = self.classes[k]
 
         def f():
+            if b.get("reentrant"):
+                _outcome(lambda: _do_call(5, W.back["numpy"]))  # user code of a backend factory may use einx itself
             if not b["healthy"]:
                 raise ImportError("boom " + b["name"])
             return self._mk(b, cls, suffix="")
